@@ -341,3 +341,359 @@ Proof.
     + apply filter_In in Hin as [Hin _].
       destruct (@inv_tid src Is sh Hin) as [sa Hsa]. rewrite Hsa. eauto.
 Qed.
+
+(** * The abstraction function under the invariant *)
+
+Lemma In_abs w p :
+  In p (abs w) <->
+  exists a rw, In a (w_archs w) /\ In rw (a_rows a) /\
+               p = (fst rw, row_abs (a_shape a) (snd rw)).
+Proof.
+  unfold abs. rewrite in_flat_map. split.
+  - intros [a [Ha Hp]]. apply in_map_iff in Hp as [rw [Hrw Hin]].
+    exists a, rw. split; [exact Ha|]. split; [exact Hin|]. symmetry. exact Hrw.
+  - intros [a [rw [Ha [Hrw Hp]]]]. exists a. split; [exact Ha|].
+    apply in_map_iff. exists rw. split; [symmetry; exact Hp | exact Hrw].
+Qed.
+
+(** [absf w e] is the component vector of the (unique) stored row whose
+    identifier is [e]. *)
+Lemma absf_spec w e cv :
+  Inv w ->
+  (absf w e = Some cv <->
+   exists sh a r vals,
+     find_arch sh (w_archs w) = Some a /\
+     nth_error (a_rows a) r = Some (e, vals) /\
+     cv = row_abs sh vals).
+Proof.
+  intros I. pose proof (@inv_nodup w I) as ND. unfold absf. split.
+  - destruct (find (fun p => eid_eqb (fst p) e) (abs w)) as [p|] eqn:F; [|discriminate].
+    intros Hcv. inversion Hcv; subst cv. clear Hcv.
+    apply find_some in F as [Hin He]. apply eid_eqb_eq in He.
+    apply In_abs in Hin as [a [rw [Ha [Hrw Hp]]]].
+    apply In_nth_error in Hrw as [r Hr].
+    destruct rw as [e' vals]. subst p. cbn [fst snd] in *. subst e'.
+    exists (a_shape a), a, r, vals.
+    split; [apply In_find_arch; assumption|]. split; [exact Hr | reflexivity].
+  - intros [sh [a [r [vals [Hf [Hr Hcv]]]]]]. subst cv.
+    assert (Hin : In (e, row_abs sh vals) (abs w)).
+    { apply In_abs. exists a, (e, vals). cbn [fst snd].
+      split; [exact (@find_arch_In _ _ _ Hf)|].
+      split; [exact (nth_error_In _ _ Hr)|].
+      rewrite (@find_arch_shape _ _ _ Hf). reflexivity. }
+    destruct (find (fun p => eid_eqb (fst p) e) (abs w)) as [p|] eqn:F.
+    + apply find_some in F as [Hin' He]. apply eid_eqb_eq in He.
+      apply In_abs in Hin' as [a' [rw' [Ha' [Hrw' Hp]]]].
+      apply In_nth_error in Hrw' as [r' Hr'].
+      destruct rw' as [e' vals']. subst p. cbn [fst snd] in *. subst e'.
+      pose proof (In_find_arch _ a' ND Ha') as Hf'.
+      destruct e as [i g].
+      pose proof (@inv_bwd w I sh a r i g vals Hf Hr) as S1.
+      pose proof (@inv_bwd w I (a_shape a') a' r' i g vals' Hf' Hr') as S2.
+      rewrite S1 in S2. inversion S2 as [[Hsh Hrr]].
+      subst r'. rewrite <- Hsh in Hf'. rewrite Hf in Hf'. inversion Hf'; subst a'.
+      rewrite Hr in Hr'. inversion Hr'; subst vals'. reflexivity.
+    + exfalso. pose proof (find_none _ _ F _ Hin) as Hno. cbn [fst] in Hno.
+      assert (Ht : eid_eqb e e = true) by (apply eid_eqb_eq; reflexivity).
+      rewrite Ht in Hno. discriminate.
+Qed.
+
+Lemma absf_None_spec w e :
+  Inv w ->
+  (absf w e = None <->
+   forall sh a r vals, find_arch sh (w_archs w) = Some a ->
+                       nth_error (a_rows a) r <> Some (e, vals)).
+Proof.
+  intros I. split.
+  - intros HN sh a r vals Hf Hr.
+    assert (HS : absf w e = Some (row_abs sh vals)).
+    { apply (absf_spec w e _ I). exists sh, a, r, vals. auto. }
+    rewrite HN in HS. discriminate.
+  - intros H. destruct (absf w e) as [cv|] eqn:E; [|reflexivity].
+    apply (absf_spec w e cv I) in E as [sh [a [r [vals [Hf [Hr _]]]]]].
+    exfalso. exact (H sh a r vals Hf Hr).
+Qed.
+
+Lemma absf_rows_le a b e cv :
+  Inv a -> Inv b ->
+  (forall sh, rows_of sh (w_archs a) = rows_of sh (w_archs b)) ->
+  absf a e = Some cv -> absf b e = Some cv.
+Proof.
+  intros Ia Ib HR H.
+  apply (absf_spec a e cv Ia) in H as [sh [x [r [vals [Hf [Hr Hcv]]]]]].
+  apply (absf_spec b e cv Ib).
+  specialize (HR sh). unfold rows_of in HR. rewrite Hf in HR.
+  destruct (find_arch sh (w_archs b)) as [y|] eqn:Fb.
+  - exists sh, y, r, vals. rewrite <- HR. auto.
+  - rewrite HR in Hr. destruct r; discriminate.
+Qed.
+
+(** Worlds that agree on the map shape ↦ rows denote the same entity map. *)
+Lemma absf_rows_feq a b :
+  Inv a -> Inv b ->
+  (forall sh, rows_of sh (w_archs a) = rows_of sh (w_archs b)) ->
+  feq (absf a) (absf b).
+Proof.
+  intros Ia Ib HR e.
+  destruct (absf a e) as [cv|] eqn:Ea.
+  - symmetry. exact (absf_rows_le a b e cv Ia Ib HR Ea).
+  - destruct (absf b e) as [cv|] eqn:Eb; [|reflexivity].
+    assert (HR' : forall sh, rows_of sh (w_archs b) = rows_of sh (w_archs a))
+      by (intros sh; symmetry; apply HR).
+    pose proof (absf_rows_le b a e cv Ib Ia HR' Eb) as H.
+    rewrite Ea in H. discriminate.
+Qed.
+
+Theorem clone_from_content : forall dst src w' evs, Inv dst -> Inv src -> w_n dst = w_n src ->
+   clone_from_world dst src = Some (w', evs) ->
+   w_slots w' = w_slots src /\ w_free w' = w_free src /\ w_len w' = w_len src /\ w_res w' = w_res src /\
+   (forall sh, rows_of sh (w_archs w') = rows_of sh (w_archs src)) /\
+   feq (absf w') (absf src).
+Proof.
+  intros dst src w' evs Id Is Hn HC.
+  pose proof (clone_from_inv dst src w' evs Id Is Hn HC) as I'.
+  pose proof (clone_from_unfold dst src w' evs HC) as Hw.
+  assert (HR : forall sh, rows_of sh (w_archs w') = rows_of sh (w_archs src)).
+  { intros sh. rewrite Hw. cbn [w_archs]. apply cf_rows_of. exact (@inv_nodup src Is). }
+  split; [rewrite Hw; reflexivity|].
+  split; [rewrite Hw; reflexivity|].
+  split; [rewrite Hw; reflexivity|].
+  split; [rewrite Hw; reflexivity|].
+  split; [exact HR|].
+  apply absf_rows_feq; assumption.
+Qed.
+
+(** * Equality *)
+
+Lemma list_eqb_eq A (eqb : A -> A -> bool) :
+  (forall x y, eqb x y = true <-> x = y) ->
+  forall a b, list_eqb eqb a b = true <-> a = b.
+Proof.
+  intros Heq. induction a as [|x a IH]; intros [|y b]; cbn [list_eqb]; split; intros H;
+    try discriminate; try reflexivity.
+  - apply andb_true_iff in H as [H1 H2]. apply Heq in H1. apply IH in H2.
+    subst. reflexivity.
+  - inversion H; subst. apply andb_true_iff. split.
+    + apply Heq. reflexivity.
+    + apply IH. reflexivity.
+Qed.
+
+Lemma eqb_sym_of_eq A (eqb : A -> A -> bool) :
+  (forall x y, eqb x y = true <-> x = y) -> forall x y, eqb x y = eqb y x.
+Proof.
+  intros H x y.
+  destruct (eqb x y) eqn:E1; destruct (eqb y x) eqn:E2; try reflexivity.
+  - apply H in E1. subst y.
+    assert (Ht : eqb x x = true) by (apply H; reflexivity).
+    rewrite Ht in E2. discriminate.
+  - apply H in E2. subst y.
+    assert (Ht : eqb x x = true) by (apply H; reflexivity).
+    rewrite Ht in E1. discriminate.
+Qed.
+
+Lemma eqb_refl_of_eq A (eqb : A -> A -> bool) :
+  (forall x y, eqb x y = true <-> x = y) -> forall x, eqb x x = true.
+Proof. intros H x. apply H. reflexivity. Qed.
+
+Lemma row_eqb_eq (a b : row) : row_eqb a b = true <-> a = b.
+Proof.
+  destruct a as [e1 v1], b as [e2 v2]. unfold row_eqb. cbn [fst snd].
+  rewrite andb_true_iff, eid_eqb_eq, (list_eqb_eq _ N.eqb N.eqb_eq). split.
+  - intros [H1 H2]. subst. reflexivity.
+  - intros H. inversion H. auto.
+Qed.
+
+Lemma loc_eqb_eq (a b : option (shape * nat)) : loc_eqb a b = true <-> a = b.
+Proof.
+  destruct a as [[s1 r1]|], b as [[s2 r2]|]; cbn [loc_eqb]; split; intros H;
+    try discriminate; try reflexivity.
+  - apply andb_true_iff in H as [H1 H2]. apply shape_eqb_eq in H1. apply Nat.eqb_eq in H2.
+    subst. reflexivity.
+  - inversion H; subst. apply andb_true_iff. split.
+    + apply shape_eqb_refl.
+    + apply Nat.eqb_refl.
+Qed.
+
+Lemma slot_eqb_eq (a b : slot) : slot_eqb a b = true <-> a = b.
+Proof.
+  destruct a as [g1 l1], b as [g2 l2]. unfold slot_eqb. cbn [s_gen s_loc].
+  rewrite andb_true_iff, N.eqb_eq, loc_eqb_eq. split.
+  - intros [H1 H2]. subst. reflexivity.
+  - intros H. inversion H. auto.
+Qed.
+
+Definition rows_eqb_eq := list_eqb_eq _ row_eqb row_eqb_eq.
+Definition slots_eqb_eq := list_eqb_eq _ slot_eqb slot_eqb_eq.
+Definition nats_eqb_eq := list_eqb_eq _ Nat.eqb Nat.eqb_eq.
+Definition vals_eqb_eq := list_eqb_eq _ N.eqb N.eqb_eq.
+
+(** [archs_eqb] decides equality of the finite maps shape ↦ rows, *including*
+    which shapes are present (an empty archetype is not the same as none). *)
+Lemma archs_eqb_incl a b :
+  forallb (fun x => match find_arch (a_shape x) b with
+                    | Some y => list_eqb row_eqb (a_rows x) (a_rows y)
+                    | None => false
+                    end) a = true ->
+  incl (map a_shape a) (map a_shape b).
+Proof.
+  intros H sh Hin. apply in_map_iff in Hin as [x [Hx Hin]]. subst sh.
+  rewrite forallb_forall in H. specialize (H x Hin).
+  destruct (find_arch (a_shape x) b) as [y|] eqn:E; [|discriminate].
+  exact (find_arch_Some_In_shape _ _ _ E).
+Qed.
+
+Lemma archs_eqb_spec a b :
+  NoDup (map a_shape a) -> NoDup (map a_shape b) ->
+  (archs_eqb a b = true <->
+   length a = length b /\
+   forall sh, option_map a_rows (find_arch sh a) = option_map a_rows (find_arch sh b)).
+Proof.
+  intros NDa NDb. unfold archs_eqb. rewrite andb_true_iff, Nat.eqb_eq. split.
+  - intros [HL HF]. split; [exact HL|]. intros sh.
+    pose proof (archs_eqb_incl a b HF) as Hincl.
+    rewrite forallb_forall in HF.
+    destruct (find_arch sh a) as [x|] eqn:Ea.
+    + specialize (HF x (@find_arch_In _ _ _ Ea)).
+      rewrite (@find_arch_shape _ _ _ Ea) in HF.
+      destruct (find_arch sh b) as [y|] eqn:Eb; [|discriminate].
+      apply rows_eqb_eq in HF. cbn [option_map]. rewrite HF. reflexivity.
+    + assert (Hincl' : incl (map a_shape b) (map a_shape a)).
+      { apply NoDup_length_incl; [exact NDa | | exact Hincl].
+        rewrite !map_length. lia. }
+      apply find_arch_None in Ea.
+      assert (Eb : find_arch sh b = None).
+      { apply find_arch_None. intros Hb. apply Ea. apply Hincl'. exact Hb. }
+      rewrite Eb. reflexivity.
+  - intros [HL HF]. split; [exact HL|].
+    apply forallb_forall. intros x Hx.
+    specialize (HF (a_shape x)). rewrite (In_find_arch a x NDa Hx) in HF.
+    cbn [option_map] in HF.
+    destruct (find_arch (a_shape x) b) as [y|]; [|discriminate].
+    cbn [option_map] in HF. inversion HF as [HF']. apply rows_eqb_eq. reflexivity.
+Qed.
+
+Lemma archs_eqb_sym a b :
+  NoDup (map a_shape a) -> NoDup (map a_shape b) ->
+  archs_eqb a b = archs_eqb b a.
+Proof.
+  intros NDa NDb.
+  destruct (archs_eqb a b) eqn:E1; destruct (archs_eqb b a) eqn:E2; try reflexivity.
+  - apply (archs_eqb_spec a b NDa NDb) in E1 as [HL HF].
+    assert (H : archs_eqb b a = true).
+    { apply (archs_eqb_spec b a NDb NDa). split; [symmetry; exact HL|].
+      intros sh. symmetry. apply HF. }
+    rewrite H in E2. discriminate.
+  - apply (archs_eqb_spec b a NDb NDa) in E2 as [HL HF].
+    assert (H : archs_eqb a b = true).
+    { apply (archs_eqb_spec a b NDa NDb). split; [symmetry; exact HL|].
+      intros sh. symmetry. apply HF. }
+    rewrite H in E1. discriminate.
+Qed.
+
+Lemma archs_eqb_refl a : NoDup (map a_shape a) -> archs_eqb a a = true.
+Proof. intros ND. apply (archs_eqb_spec a a ND ND). split; reflexivity. Qed.
+
+Lemma archs_eqb_rows_of a b :
+  NoDup (map a_shape a) -> NoDup (map a_shape b) ->
+  archs_eqb a b = true -> forall sh, rows_of sh a = rows_of sh b.
+Proof.
+  intros NDa NDb H sh. apply (archs_eqb_spec a b NDa NDb) in H as [_ HF].
+  rewrite !rows_of_alt. rewrite HF. reflexivity.
+Qed.
+
+Lemma world_eqb_true a b :
+  world_eqb a b = true <->
+  w_len a = w_len b /\ archs_eqb (w_archs a) (w_archs b) = true /\
+  w_slots a = w_slots b /\ w_free a = w_free b /\ w_res a = w_res b.
+Proof.
+  unfold world_eqb.
+  rewrite !andb_true_iff, Nat.eqb_eq, slots_eqb_eq, nats_eqb_eq, vals_eqb_eq.
+  tauto.
+Qed.
+
+Theorem world_eqb_refl : forall w, Inv w -> world_eqb w w = true.
+Proof.
+  intros w I. apply world_eqb_true.
+  split; [reflexivity|]. split; [apply archs_eqb_refl; exact (@inv_nodup w I)|].
+  repeat split.
+Qed.
+
+Theorem world_eqb_sym : forall a b, Inv a -> Inv b -> world_eqb a b = world_eqb b a.
+Proof.
+  intros a b Ia Ib. unfold world_eqb.
+  assert (H1 : Nat.eqb (w_len a) (w_len b) = Nat.eqb (w_len b) (w_len a))
+    by apply Nat.eqb_sym.
+  assert (H2 : archs_eqb (w_archs a) (w_archs b) = archs_eqb (w_archs b) (w_archs a))
+    by (apply archs_eqb_sym; [exact (@inv_nodup a Ia) | exact (@inv_nodup b Ib)]).
+  assert (H3 : list_eqb slot_eqb (w_slots a) (w_slots b) = list_eqb slot_eqb (w_slots b) (w_slots a))
+    by apply (eqb_sym_of_eq _ _ slots_eqb_eq).
+  assert (H4 : list_eqb Nat.eqb (w_free a) (w_free b) = list_eqb Nat.eqb (w_free b) (w_free a))
+    by apply (eqb_sym_of_eq _ _ nats_eqb_eq).
+  assert (H5 : list_eqb N.eqb (w_res a) (w_res b) = list_eqb N.eqb (w_res b) (w_res a))
+    by apply (eqb_sym_of_eq _ _ vals_eqb_eq).
+  rewrite H1, H2, H3, H4, H5. reflexivity.
+Qed.
+
+Theorem world_eqb_sound : forall a b, Inv a -> Inv b -> world_eqb a b = true ->
+   feq (absf a) (absf b) /\ w_res a = w_res b /\ w_slots a = w_slots b /\ w_free a = w_free b /\ w_len a = w_len b.
+Proof.
+  intros a b Ia Ib H. apply world_eqb_true in H as [HL [HA [HS [HF HR]]]].
+  split; [|auto].
+  apply absf_rows_feq; [exact Ia | exact Ib |].
+  apply archs_eqb_rows_of; [exact (@inv_nodup a Ia) | exact (@inv_nodup b Ib) | exact HA].
+Qed.
+
+(* equality ignores the type-id lookup table and the order of the archetype table *)
+Theorem world_eqb_tid : forall w tid, Inv w ->
+   world_eqb w (mkWorld (w_n w) (w_archs w) tid (w_slots w) (w_free w) (w_len w) (w_res w)) = true.
+Proof.
+  intros w tid I.
+  change (world_eqb w (mkWorld (w_n w) (w_archs w) tid (w_slots w) (w_free w) (w_len w) (w_res w)))
+    with (world_eqb w w).
+  apply world_eqb_refl. exact I.
+Qed.
+
+(* changing the content makes worlds unequal: contrapositive of soundness, stated directly *)
+Theorem world_eqb_differs : forall a b e, Inv a -> Inv b -> absf a e <> absf b e -> world_eqb a b = false.
+Proof.
+  intros a b e Ia Ib Hne. destruct (world_eqb a b) eqn:E; [|reflexivity].
+  destruct (world_eqb_sound a b Ia Ib E) as [Hf _]. exfalso. apply Hne. apply Hf.
+Qed.
+
+Theorem world_eqb_res_differs : forall a b, Inv a -> Inv b -> w_res a <> w_res b -> world_eqb a b = false.
+Proof.
+  intros a b Ia Ib Hne. destruct (world_eqb a b) eqn:E; [|reflexivity].
+  destruct (world_eqb_sound a b Ia Ib E) as [_ [Hr _]]. exfalso. apply Hne. exact Hr.
+Qed.
+
+(** Order of the archetype table is irrelevant (explicit form). *)
+Lemma archs_eqb_perm a b :
+  NoDup (map a_shape a) -> Permutation a b -> archs_eqb a b = true.
+Proof.
+  intros NDa HP.
+  assert (NDb : NoDup (map a_shape b)).
+  { apply (@Permutation_NoDup _ (map a_shape a)); [apply Permutation_map; exact HP | exact NDa]. }
+  apply (archs_eqb_spec a b NDa NDb). split; [apply Permutation_length; exact HP|].
+  intros sh. destruct (find_arch sh a) as [x|] eqn:Ea.
+  - pose proof (@find_arch_In _ _ _ Ea) as Hin.
+    apply (Permutation_in _ HP) in Hin.
+    pose proof (In_find_arch b x NDb Hin) as Hb.
+    rewrite (@find_arch_shape _ _ _ Ea) in Hb. rewrite Hb. reflexivity.
+  - apply find_arch_None in Ea.
+    assert (Eb : find_arch sh b = None).
+    { apply find_arch_None. intros Hb. apply Ea.
+      apply (Permutation_in _ (Permutation_sym (Permutation_map a_shape HP))). exact Hb. }
+    rewrite Eb. reflexivity.
+Qed.
+
+Print Assumptions clone_world_safe.
+Print Assumptions clone_world_same.
+Print Assumptions clone_from_safe.
+Print Assumptions clone_from_inv.
+Print Assumptions clone_from_content.
+Print Assumptions world_eqb_refl.
+Print Assumptions world_eqb_sym.
+Print Assumptions world_eqb_sound.
+Print Assumptions world_eqb_tid.
+Print Assumptions world_eqb_differs.
+Print Assumptions world_eqb_res_differs.
